@@ -104,8 +104,10 @@ class BerneseCrdParser(LineParser):
                 if line.startswith("LOCAL GEODETIC DATUM"):
                     words = [w.strip() for w in line.replace("LOCAL GEODETIC DATUM:", "").replace("EPOCH:", "").split()]
         
-                    self.meta["ref_frame"] = words[0]
-                    self.meta["ref_epoch"] =  f"{words[1]}T{words[2]}"
+                    # The epoch is either given as date and time or as one word (e.g. UNKNOWN, as written by the
+                    # bernese_crd writer if no epoch is given)
+                    self.meta["ref_frame"] = words[0] if words else ""
+                    self.meta["ref_epoch"] = "T".join(words[1:3])
                     break
 
     #
